@@ -14,6 +14,7 @@ use crate::{
     types::{Blob, DataType, DataTypeKind, bool::Bool},
 };
 use std::{
+    cmp::Ordering,
     collections::HashSet,
     error::Error,
     fmt::{Display, Formatter, Result as FmtResult},
@@ -118,8 +119,9 @@ impl<'a> ExpressionEvaluator<'a> {
                         "cannot apply unary operators to lists of values!".to_string(),
                     ));
                 };
+                // IS NULL / IS NOT NULL are never unknown
                 Ok(vec![DataType::Bool(Bool(
-                    matches!(evaluated[0], DataType::Null) || *negated,
+                    matches!(evaluated[0], DataType::Null) != *negated,
                 ))])
             }
             BoundExpression::Between {
@@ -137,9 +139,19 @@ impl<'a> ExpressionEvaluator<'a> {
                     ));
                 };
 
-                Ok(vec![DataType::Bool(Bool(
-                    (inner[0] >= low[0] && inner[0] <= high[0]) || *negated,
-                ))])
+                // x BETWEEN a AND b is (x >= a) AND (x <= b) in three-valued logic;
+                // NOT BETWEEN is its three-valued negation.
+                let ge = Self::compare_3vl(&inner[0], &low[0], |o| o != Ordering::Less);
+                let le = Self::compare_3vl(&inner[0], &high[0], |o| o != Ordering::Greater);
+                let between = match (ge, le) {
+                    (Some(false), _) | (_, Some(false)) => Some(false),
+                    (Some(true), Some(true)) => Some(true),
+                    _ => None,
+                };
+                Ok(vec![match between {
+                    Some(b) => DataType::Bool(Bool(b != *negated)),
+                    None => DataType::Null,
+                }])
             }
             BoundExpression::Exists { query, negated } => {
                 todo!("Subquery evaluation is not yet implemented")
@@ -163,9 +175,18 @@ impl<'a> ExpressionEvaluator<'a> {
                         "cannot apply unary operators to lists of values!".to_string(),
                     ));
                 };
-                Ok(vec![DataType::Bool(Bool(
-                    set.contains(&evaluated[0]) || *negated,
-                ))])
+                // x IN (...) is unknown when x is NULL, or when x matches nothing and the list
+                // holds a NULL; NOT IN is the three-valued negation.
+                if matches!(evaluated[0], DataType::Null) {
+                    return Ok(vec![DataType::Null]);
+                }
+                if set.contains(&evaluated[0]) {
+                    return Ok(vec![DataType::Bool(Bool(!*negated))]);
+                }
+                if set.contains(&DataType::Null) {
+                    return Ok(vec![DataType::Null]);
+                }
+                Ok(vec![DataType::Bool(Bool(*negated))])
             }
             BoundExpression::Subquery { query, result_type } => {
                 todo!("Subquery evaluation is not yet implemented")
@@ -290,6 +311,11 @@ impl<'a> ExpressionEvaluator<'a> {
         }
     }
 
+    /// Three-valued comparison: `None` when either side is NULL or the values cannot be ordered.
+    fn compare_3vl(a: &DataType, b: &DataType, test: impl Fn(Ordering) -> bool) -> Option<bool> {
+        a.partial_cmp(b).map(test)
+    }
+
     fn eval_column(&self, col_ref: Binding) -> EvaluationResult<DataType> {
         let idx = col_ref.column_idx;
         // column_index is the index into the values portion of the schema
@@ -356,7 +382,7 @@ impl<'a> ExpressionEvaluator<'a> {
 
         // Convert back to Blob and wrap as Text
         Ok(DataType::Bool(Bool(
-            !negated && lhs_blob.like(pattern_blob.as_str()?)?,
+            lhs_blob.like(pattern_blob.as_str()?)? != negated,
         )))
     }
 
